@@ -127,9 +127,9 @@ CHECKS = {
     note=TB + "; only the no-silent-truncation clause is claimed"),
  "C14": dict(
     engine="capcheck",
-    technique="relational abstract interpretation of the two tokenizers with the string = merge(dest, *ptr) and capacity = entry value of *dmaxp: bounded accesses, consistency of the continuation pair, exactness of the delimiter-limit exit (off(delim cursor) == STRTOK_DELIM_MAX_LEN entailed both ways); CFG must-pass rule for storing *ptr; only-zero-stores rule",
+    technique="relational abstract interpretation of the two tokenizers with the string = merge(dest, *ptr) and capacity = entry value of *dmaxp: bounded accesses, consistency of the continuation pair, exactness of the delimiter-limit exit (off(delim cursor) == STRTOK_DELIM_MAX_LEN entailed both ways); CFG must-pass rule for storing *ptr; only-zero-stores rule; dominance rule for the continuation step; like-with-like rule for the delimiter comparisons",
     category="other",
-    text="Decides the bound clauses for all strings, dmax and delimiter sets: every access through the string cursor lies inside *dmaxp, the (*ptr, *dmaxp) pair handed back never permits access past the original *dmaxp, only zeros are stored into the string, a returned token implies *ptr was stored, and the 'delim is unterminated' exit fires exactly after STRTOK_DELIM_MAX_LEN scanned delimiters (so all of them take part). Not decided: that the sequence of calls yields each maximal token exactly once.",
+    text="Decides the bound clauses for all strings, dmax and delimiter sets: every access through the string cursor lies inside *dmaxp, the (*ptr, *dmaxp) pair handed back never permits access past the original *dmaxp, only zeros are stored into the string, a returned token implies *ptr was stored, and the 'delim is unterminated' exit fires exactly after STRTOK_DELIM_MAX_LEN scanned delimiters (so all of them take part), the continuation is set behind the cursor only where a dominating store nulled the element at the cursor (never behind the string's own terminator), and string and delimiter characters are compared with the same width and extension. Not decided: that the sequence of calls yields each maximal token exactly once.",
     design_ref="DESIGN.md §4 C14",
     note=TB + "; the caller hands back the previous (*ptr, *dmaxp) pair unchanged; 9 known findings (reads/writes at dest[*dmaxp] on the unterminated path, last token returned without storing *ptr)"),
 }
